@@ -324,6 +324,20 @@ static void flush_bitpack(carquet_rle_encoder_t* enc) {
     enc->bitpack_total = 0;
 }
 
+/* Complete a pending partial literal group with values taken from the current
+ * run, so that a group is never zero-padded in the middle of the stream
+ * (padding is only legal in the final group). */
+static void complete_bitpack_group_from_run(carquet_rle_encoder_t* enc) {
+    while (enc->bitpack_count > 0 && enc->bitpack_count < 8 && enc->repeat_count > 0) {
+        enc->bitpack_buffer[enc->bitpack_count++] = enc->prev_value;
+        enc->bitpack_total++;
+        enc->repeat_count--;
+    }
+    if (enc->bitpack_count == 8) {
+        flush_bitpack(enc);
+    }
+}
+
 void carquet_rle_encoder_init(
     carquet_rle_encoder_t* enc,
     carquet_buffer_t* buffer,
@@ -356,6 +370,9 @@ carquet_status_t carquet_rle_encoder_put(
     }
 
     /* Value changed */
+    if (enc->repeat_count >= 8 && enc->bitpack_count > 0) {
+        complete_bitpack_group_from_run(enc);
+    }
     if (enc->repeat_count >= 8) {
         /* Flush as RLE */
         flush_bitpack(enc);  /* Flush any pending bit-pack */
@@ -395,6 +412,9 @@ carquet_status_t carquet_rle_encoder_flush(carquet_rle_encoder_t* enc) {
         return enc->status;
     }
 
+    if (enc->repeat_count >= 8 && enc->bitpack_count > 0) {
+        complete_bitpack_group_from_run(enc);
+    }
     if (enc->repeat_count >= 8) {
         flush_bitpack(enc);
         flush_rle(enc);
